@@ -104,6 +104,17 @@ Definition produce (c : cfg) (s : state) (ne : bool) : state :=
        let ne' := ne && negb (h <=? c_init c) in
        mk_state h (if ne' then h :: t_nes s1 else t_nes s1) (t_wh s1) (t_ph s1) (t_wd s1) (t_pd s1) (t_dah s1) (t_dad s1).
 
+(* n production attempts in a row with a sequencer that has no transactions (an idle stretch); also returns
+   how many of them were refused.  Run-length form of IProduce false, so that long idle stretches stay small
+   in the harness's case files. *)
+Fixpoint produce_n (c : cfg) (s : state) (n : nat) : state * N :=
+  match n with
+  | O => (s, 0)
+  | S k => let r := refused c s in
+           let '(s2, m) := produce_n c (produce c s false) k in
+           (s2, (if r then 1 else 0) + m)
+  end.
+
 (* ---- DA submission -------------------------------------------------------------------------------- *)
 Inductive outcome :=
 | OAccept (k : N)     (* the DA layer takes the first min(k, n) blobs of the call *)
@@ -177,6 +188,7 @@ Definition data_iter (s : state) (sc : list outcome) : state * (N * list (list N
 (* ---- histories ------------------------------------------------------------------------------------ *)
 Inductive item :=
 | IProduce (ne : bool)
+| IProduceEmptyN (n : N)      (* n times IProduce false; observed: the number of refused attempts *)
 | IHeaders (sc : list outcome)
 | IData (sc : list outcome)
 | IRestart.
@@ -184,6 +196,7 @@ Inductive item :=
 Definition step (c : cfg) (s : state) (i : item) : state * obs :=
   match i with
   | IProduce ne => let s' := produce c s ne in (s', observe (if refused c s then 1 else 0) [] s')
+  | IProduceEmptyN n => let '(s', m) := produce_n c s (N.to_nat n) in (s', observe m [] s')
   | IHeaders sc => let '(s', (r, cs)) := headers_iter s sc in (s', observe r cs s')
   | IData sc => let '(s', (r, cs)) := data_iter s sc in (s', observe r cs s')
   | IRestart => let s' := restart c s in (s', observe 0 [] s')
